@@ -685,6 +685,11 @@ func (d *Decoder) processPropertyElt(ectx evaluationContext, startElement xml.St
 					case internal.Local_Datatype_Syntax:
 						explicitDatatype = true
 						lit.Datatype = ectx.ResolveIRI(attr.Value)
+
+						if lit.Datatype == rdfiri.LangString_Datatype || lit.Datatype == rdfiri.Base+"dirLangString" {
+							// a (directional) language-tagged string cannot be written as a typed literal: it would have no tag
+							return d.newTokenAttrError(fmt.Errorf("datatype requires a language tag: %s", lit.Datatype), attr)
+						}
 					}
 				}
 
